@@ -1,5 +1,7 @@
 mod cli;
 mod engine;
+mod fuzzdecode;
+mod fuzzrun;
 mod io;
 mod gen;
 mod model;
@@ -119,7 +121,17 @@ fn main() {
             std::process::exit(code);
         }
         "oracle-server" => props::oracle_server(),
-        "corpus" => props::corpus(&args[2], &args[3]),
+        "corpus" => {
+            let n = fuzzrun::write_corpus(&args[2], Path::new(&args[3]), seed_from_env());
+            println!("{} files", n);
+        }
+        "fuzz-case" => {
+            let data = std::fs::read(&args[4]).expect("artifact");
+            match fuzzrun::artifact_case(&args[2], &args[3], &data) {
+                Some((leg, case)) => println!("{}", json!({"property": args[2], "leg": leg, "case": case})),
+                None => println!("null"),
+            }
+        }
         o => {
             eprintln!("unknown command {}", o);
             std::process::exit(2);
@@ -306,6 +318,64 @@ fn check(id: &str, tier: Tier) -> i32 {
             }
         }
     }
+    // ---- libFuzzer campaigns (thorough tier only)
+    let mut fuzz_report: Vec<Value> = Vec::new();
+    if tier == Tier::Thorough && std::env::var("VERIF_NO_FUZZ").is_err() {
+        let plans = fuzzrun::plans(id);
+        if !plans.is_empty() {
+            match fuzzrun::build() {
+                Err(e) => inconclusive.push(format!("fuzz build: {}", e)),
+                Ok(()) => {
+                    for plan in plans {
+                        match fuzzrun::campaign(&plan, &work, seed) {
+                            Err(e) => inconclusive.push(format!("fuzz campaign {}: {}", plan.target, e)),
+                            Ok(out) => {
+                                let mut confirmed = 0;
+                                for (ai, art) in out.artifacts.iter().enumerate() {
+                                    let data = std::fs::read(art).unwrap_or_default();
+                                    let case = fuzzrun::artifact_case(id, plan.target, &data);
+                                    let (leg, case) = match case {
+                                        Some(x) => x,
+                                        None => continue,
+                                    };
+                                    let dir = root.join("replays").join(id);
+                                    let _ = std::fs::create_dir_all(&dir);
+                                    let rp = dir.join(format!("fuzz__{}_{}.json", plan.target, ai));
+                                    let body = json!({"property": id, "leg": leg, "signature": "fuzz-artifact", "message": util::trunc(&out.log_tail, 2000), "case": case, "artifact_hex": util::render_bytes(&data)});
+                                    let _ = std::fs::write(&rp, serde_json::to_vec_pretty(&body).unwrap());
+                                    // confirm through the plain check function in a child process
+                                    let st = Command::new(&exe).args(["replay-inner", id]).arg(&rp).stdout(Stdio::piped()).stderr(Stdio::null()).output();
+                                    match st {
+                                        Ok(o) if o.status.code() == Some(1) => {
+                                            let txt = String::from_utf8_lossy(&o.stdout).to_string();
+                                            let sig = txt.lines().find_map(|l| l.strip_prefix("replay fails: signature=")).map(|l| l.split(" : ").next().unwrap_or("fuzz").to_string()).unwrap_or_else(|| "fuzz-artifact".into());
+                                            violations.push((sig, format!("libFuzzer target {} found: {}", plan.target, util::trunc(&txt, 600)), rp.to_string_lossy().to_string()));
+                                            confirmed += 1;
+                                        }
+                                        Ok(o) if o.status.code().is_none() && prop.abort_is_violation => {
+                                            violations.push(("fatal-signal".into(), format!("libFuzzer target {}: the replayed case kills the process", plan.target), rp.to_string_lossy().to_string()));
+                                            confirmed += 1;
+                                        }
+                                        Ok(o) if o.status.code() == Some(0) => {
+                                            // e.g. the artifact belongs to the sibling property served by the same target
+                                            let _ = std::fs::remove_file(&rp);
+                                        }
+                                        _ => inconclusive.push(format!("fuzz artifact {:?} of target {} could not be replayed", art, plan.target)),
+                                    }
+                                }
+                                merged.evaluations += out.execs;
+                                fuzz_report.push(json!({"target": plan.target, "executions": out.execs, "artifacts": out.artifacts.len(), "confirmed_violations": confirmed,
+                                    "jobs": plan.jobs, "max_len": plan.max_len, "corpus_seeds_per_job": out.corpus_seeds, "wall_s": out.wall_s}));
+                                if out.execs == 0 {
+                                    inconclusive.push(format!("fuzz campaign {} executed nothing: {}", plan.target, util::trunc(&out.log_tail, 400)));
+                                }
+                            }
+                        }
+                    }
+                }
+            }
+        }
+    }
     let distinct = hashes.len() as u64 + merged.enum_nontrivial;
     let wall = t0.elapsed().as_secs_f64();
 
@@ -325,6 +395,9 @@ fn check(id: &str, tier: Tier) -> i32 {
     });
     for (k, v) in merged.extra.iter() {
         coverage[k] = v.clone();
+    }
+    if !fuzz_report.is_empty() {
+        coverage["fuzz_campaigns"] = json!(fuzz_report);
     }
     let mut uniq: BTreeMap<String, (String, String)> = BTreeMap::new();
     for (sig, msg, replay) in violations.iter() {
